@@ -27,7 +27,8 @@ RULE = ("documents of 1-3 paragraphs (c05.gen_doc: comment lines before fields, 
         "p[k]=v / del p[k] with un-indexed and indexed keys (plain one-line values; a few multi-line/invalid values "
         "and bad keys), Deb822FileElement.append/insert of freshly built paragraphs (index 0..n+1, rarely negative), "
         "re-appending a paragraph of the file; a 2% stream that empties a paragraph, appends/inserts and refills it "
-        "(D23).  Observed after every operation: exception kind, dump(), a fresh parse of the dump (name and exact "
+        "(D23); a 10% stream of 2-4 paragraphs separated by free comment lines glued to the end of the paragraph "
+        "before / to the start of the next (with and without blank lines on either side) x insert at a middle index.  Observed after every operation: exception kind, dump(), a fresh parse of the dump (name and exact "
         "text of every field), and for the paragraph operated on (all paragraphs after append/insert and at the end "
         "of the history) and every name in it the position of get_kvpair_element((name, i)) among iter_parts() for "
         "i = -1, 0..count.  non-trivial = at least one operation succeeded and changed the dump")
@@ -233,13 +234,56 @@ def gen_small_doc(rng):
                 text += rng.choice([" cont\n", "# in\n more\n", "\tt\n"])
         names_pp.append(names)
         if j + 1 < npar:
-            text += rng.choice(["\n", "\n\n", "\n# free\n\n", " \n"])
+            text += rng.choice(["\n", "\n\n", "\n# free\n\n", " \n"] + GLUED)
     r = rng.random()
     if r < 0.4:
         text = text[:-1]
     elif r < 0.5:
-        text += rng.choice(["\n", "\n# end\n", "\n# end", " \n", "\n  "])
+        text += rng.choice(["\n", "\n# end\n", "\n# end", " \n", "\n  ", "# glued end\n", "# glued end"])
     return text, names_pp
+
+
+# what stands between two paragraphs: free comment lines glued to the end of the paragraph before (no blank
+# line in front of them), glued to the start of the next (they become the comment of its first field), both,
+# with blank / whitespace-only lines on either side or not
+GLUED = ["# g\n\n", "# g1\n# g2\n\n", "# g\n \n", "# g\n\n\n", "# g\n\n# free\n\n", "\n# lead\n",
+         "# g\n\n# lead\n", "\n# free\n\n# lead\n", "# g\n\n# free\n\n# lead\n", "\n\n# free\n\n"]
+
+
+def gen_glued(rng):
+    """2-4 paragraphs separated by the GLUED layouts x an insert at a middle index (every one in turn over
+    the stream), surrounded by a few other operations"""
+    npar = rng.choice([2, 2, 3, 4])
+    text = rng.choice(["", "", "# head\n\n", "\n"])
+    npp = []
+    for j in range(npar):
+        names = rng.sample(SMALL_NAMES, rng.choice([1, 2, 2, 3]))
+        if rng.random() < 0.3:
+            n = rng.choice(names)
+            names.append(rng.choice([n, n.lower(), n.upper()]))
+        for n in names:
+            text += n + ": v%d\n" % rng.randint(0, 9)
+            if rng.random() < 0.15:
+                text += " cont\n"
+        npp.append(names)
+        if j + 1 < npar:
+            text += rng.choice(GLUED) if rng.random() < 0.85 else "\n"
+    r = rng.random()
+    if r < 0.3:
+        text = text[:-1]
+    elif r < 0.45:
+        text += rng.choice(["# glued end\n", "# glued end", "\n# end\n"])
+    ops = []
+    if rng.random() < 0.4:
+        ops.append(gen_op(rng, npp))
+    for _ in range(rng.choice([1, 1, 2])):
+        i = rng.randint(1, len(npp) - 1)
+        kv = gen_kvs(rng)
+        npp.insert(i, [k for k, _ in kv])
+        ops.append({"o": "insert", "i": i, "kv": kv})
+    if rng.random() < 0.5:
+        ops.append(gen_op(rng, npp))
+    return {"text": text, "ops": ops}
 
 
 def gen_key(rng, names):
@@ -330,7 +374,10 @@ def generate(rng, n, tier):
         if r < 0.02:
             yield gen_empty_tail(rng)
             continue
-        if r < 0.55:
+        if r < 0.12:
+            yield gen_glued(rng)
+            continue
+        if r < 0.58:
             text, npp = gen_small_doc(rng)
         else:
             text, npp = c05.gen_doc(rng, dups=rng.random() < 0.5)
